@@ -293,6 +293,12 @@ func runFont(c *wk.Case) {
 	t := c.T
 	kind := simgen.Kind(t.Draw(3))
 	f := simgen.GenFont(t, kind, t.Weighted(4, 1))
+	if o, ok := f.Outlines.(*glyf.Outlines); ok && t.Chance(1, 20) {
+		// a "glyf" table whose size is at the limit of the short "loca" format
+		if simgen.PadGlyfTo(t, o, simgen.LocaEdges[t.Draw(len(simgen.LocaEdges))]) {
+			c.Count("fonts_with_glyf_size_at_the_short_loca_limit", 1)
+		}
+	}
 	if t.Chance(1, 2) {
 		simgen.AddLayoutTables(t, f)
 	}
@@ -350,6 +356,9 @@ func runFont(c *wk.Case) {
 			c.Fail("write-count", opName, "returned count %d, file has %d bytes", nret, len(w.Disk))
 		}
 		if where, msg := simgen.Fsck(w.Disk, scaler, nil); where != "" {
+			c.Fail("fsck", opName+"/"+where, "%s (map order %d)", msg, ord)
+		}
+		if where, msg := simgen.FsckLoca(w.Disk); where != "" {
 			c.Fail("fsck", opName+"/"+where, "%s (map order %d)", msg, ord)
 		}
 		// the outline tables of the file's flavour come as a set: TrueType
